@@ -30,9 +30,9 @@ Fraction = fractions.Fraction
 # ------------------------------------------------------------------------------------------------ TLC
 # shape code: 10000 yfree + 1000 maxv + 100 n_pre + 10 n_test + n_cool (see TBRModel.tla)
 TIERS = {
-    'quick': dict(shapes=[2310, 2311, 2312, 1411], sample_mod=64, nm_mod=4, witness=[2312],
+    'quick': dict(shapes=[2310, 2311, 2312, 1411], sample_mod=64, nm_mod=8, witness=[2312],
                   max_cases=640),
-    'thorough': dict(shapes=[13310, 3311, 3320, 3312, 2410, 2411, 2421, 2412, 2510, 1532], sample_mod=61, nm_mod=5,
+    'thorough': dict(shapes=[13310, 3311, 3320, 3312, 2410, 2411, 2421, 2510, 1532], sample_mod=61, nm_mod=5,
                      witness=[3311], max_cases=12000),
 }
 
@@ -275,7 +275,7 @@ def level_finding(level, tails):
   return tails == 1 and level <= 0.5
 
 
-def check_tbr(mods, c, exp, rows, meta, uc, combos, with_cost, int_dtype):
+def check_tbr(mods, c, exp, rows, meta, uc, combos, with_cost, int_dtype, matched=False):
   """Fits the real TBR on one frame; returns a list of (clause, detail, finding_key, combo)."""
   pd, np, st, tbr = mods['pd'], mods['np'], mods['st'], mods['tbr']
   out = []
@@ -313,19 +313,31 @@ def check_tbr(mods, c, exp, rows, meta, uc, combos, with_cost, int_dtype):
           kk, one.kwds['loc'], one.kwds['scale'], 0.25 * exp['loc'][kk], 0.25 * exp['sd'][kk]), None, None))
   except Exception as e:  # pylint: disable=broad-except
     out.append(('SingleDayAccessor', '%s: %s' % (type(e).__name__, e), None, None))
-  for combo in combos:
+  for j, combo in enumerate(combos):
     level, tails, thsign, rescale = combo
     thr = thsign * (abs(exp['loc'][ndays - 1]) + 0.5) * rescale
     key = KEY_LEVEL if level_finding(level, tails) else None
     try:
       rep = m.summary(level=level, threshold=thr, tails=tails, report='all', rescale=rescale)
-      last = m.summary(level=level, threshold=thr, tails=tails, report='last', rescale=rescale)
+      last = m.summary(level=level, threshold=thr, tails=tails, report='last', rescale=rescale) if j == 0 else None
     except Exception as e:  # pylint: disable=broad-except
       out.append(('SummaryIsTotal', '%s: %s' % (type(e).__name__, e), None, combo))
       continue
     bad = judge_summary(np, st, rep, last, exp, ndays, level, tails, thr, rescale)
     if bad:
       out.append((bad[0], bad[1], key if bad[0] in ('LowerLeEstimate', 'PrecisionIsEstimateMinusLower') else None, combo))
+  if matched:
+    # `lower` depends on level and tails through the tail probability (1 - level) / tails only
+    try:
+      one = m.summary(level=0.9, tails=1, report='all')
+      two = m.summary(level=0.8, tails=2, report='all')
+      for k in range(ndays):
+        if not close(float(one.iloc[k]['lower']), float(two.iloc[k]['lower']), exp['sd'][k]):
+          out.append(('LowerDependsOnTailProbability', 'day %d: lower=%.12g at (level 0.9, tails 1) but %.12g at '
+                      '(level 0.8, tails 2)' % (k + 1, float(one.iloc[k]['lower']), float(two.iloc[k]['lower'])), None, None))
+          break
+    except Exception as e:  # pylint: disable=broad-except
+      out.append(('SummaryIsTotal', '%s: %s' % (type(e).__name__, e), None, None))
   return out
 
 
@@ -358,6 +370,8 @@ def judge_summary(np, st, rep, last, exp, ndays, level, tails, thr, rescale):
   for k in range(1, ndays):
     if not close(ratios[k], ratios[0], rel=1e-7):
       return 'LowerIsAFixedQuantile', '(estimate-lower)/scale differs between days: %r' % (ratios,)
+  if last is None:
+    return None
   if last.shape[0] != 1:
     return 'LastIsOneRow', "report='last' has %d rows" % last.shape[0]
   a, b = last.iloc[0], rep.iloc[ndays - 1]
@@ -424,17 +438,17 @@ def combos_for(idx, fidx, with_finding):
   base = (idx * 12 + fidx) * 3
   combos = [COMBOS[(base + j * 19) % len(COMBOS)] for j in range(3)]
   if with_finding:
-    combos.append(FINDING_COMBOS[(idx + fidx) % len(FINDING_COMBOS)])
+    combos.append(FINDING_COMBOS[(idx // 16) % len(FINDING_COMBOS)])
   return combos
 
 
-def one_frame(mods, c, exp, seed, kind, uc, combos, with_cost, int_dtype):
+def one_frame(mods, c, exp, seed, kind, uc, combos, with_cost, int_dtype, matched=False):
   rows, meta = build_rows(c, kind, seed, cost=None)
   if with_cost:
     rng = frame_rng(seed, c, kind, 'cost')
     for r in rows:
       r['cost'] = rng.randint(0, 5)
-  bad = check_tbr(mods, c, exp, rows, meta, uc, combos, with_cost, int_dtype)
+  bad = check_tbr(mods, c, exp, rows, meta, uc, combos, with_cost, int_dtype, matched)
   return bad, meta
 
 
@@ -451,7 +465,8 @@ def work(job):
       combos = combos_for(idx, fidx, with_finding)
       with_cost = (ki + idx) % 2 == 0
       int_dtype = kind == 'one_geo' and idx % 2 == 1
-      bad, meta = one_frame(mods, c, exp, seed, kind, uc, combos, with_cost, int_dtype)
+      matched = ki == idx % len(KINDS) and uc == (idx % 2 == 0)
+      bad, meta = one_frame(mods, c, exp, seed, kind, uc, combos, with_cost, int_dtype, matched)
       out['traces'] += 1
       out['kinds'][kind] = out['kinds'].get(kind, 0) + 1
       out['uc'][uc] += 1
@@ -460,7 +475,8 @@ def work(job):
       for clause, detail, key, combo in bad:
         out['viol'].append((clause, {'case': case_public(c), 'kind': kind, 'use_cooldown': uc, 'seed': seed,
                                      'combos': [list(x) for x in combos], 'combo': list(combo) if combo else None,
-                                     'with_cost': with_cost, 'int_dtype': int_dtype, 'frame': meta}, detail, key))
+                                     'with_cost': with_cost, 'int_dtype': int_dtype, 'matched': matched, 'frame': meta},
+                            detail, key))
       fidx += 1
   for uc in (True, False):
     bad = check_design_side(mods, c, exp, uc)
@@ -553,6 +569,7 @@ def replay(res, blob):
       res.violate(bad[0], v, bad[1])
     return
   combos = [tuple(x) for x in v['combos']]
-  bad, _ = one_frame(mods, c, exp, v['seed'], v['kind'], v['use_cooldown'], combos, v['with_cost'], v['int_dtype'])
+  bad, _ = one_frame(mods, c, exp, v['seed'], v['kind'], v['use_cooldown'], combos, v['with_cost'], v['int_dtype'],
+                     v.get('matched', False))
   for clause, detail, key, combo in bad:
     res.violate(clause, v, detail, finding_key=key)
